@@ -34,6 +34,7 @@ func runC16(c *engine.Ctx) {
 		{"errderef", func() { c16ErrorPathDeref(c) }}, {"panics", func() { c16Panics(c) }}, {"lockorder", func() { c16LockOrder(c, li, "R11") }},
 		{"retry", func() { c16RetryBound(c, "R12") }}, {"index", func() { c16IndexBounds(c, "R13") }},
 		{"dropped", func() { checkDroppedErrors(c, "R14", "*") }}, {"lost", func() { checkLostErrors(c, "R15", "*") }}, {"stale", func() { checkStaleErrReturns(c, "R16", "*") }},
+		{"rawenum", func() { checkRawEnumCompare(c, "R17") }},
 	}
 	for _, s := range steps {
 		t0 := time.Now()
@@ -1228,4 +1229,97 @@ func mayReturnNil(cf *ssa.Function, i int) bool {
 		}
 	})
 	return may
+}
+
+// checkRawEnumCompare: the server validates a registration by comparing enumeration-like configuration strings with
+// constants exactly (checkValidationExact); the code that later acts on the same field must compare the same raw value.
+// A consumer that folds case (or trims) first understands spellings the validator waved through unchecked — e.g.
+// multiplexer "HTTPConnect" skips the "feature enabled" check and reaches a nil muxer.
+func checkRawEnumCompare(c *engine.Ctx, rule string) {
+	c.Rule(rule, "in server, server/proxy, server/group and server/visitor every comparison of a pkg/config/v1 string field with a constant compares the raw field value: no strings.ToLower/ToUpper/Title/TrimSpace/EqualFold in between")
+	p := c.P
+	isCfgField := func(f *types.Var) bool {
+		if f.Pkg() == nil || !strings.HasSuffix(f.Pkg().Path(), "/pkg/config/v1") {
+			return false
+		}
+		b, ok := f.Type().Underlying().(*types.Basic)
+		return ok && b.Info()&types.IsString != 0
+	}
+	folding := func(o *types.Func) bool {
+		if o == nil || o.Pkg() == nil || o.Pkg().Path() != "strings" {
+			return false
+		}
+		switch o.Name() {
+		case "ToLower", "ToUpper", "Title", "TrimSpace", "Trim", "ToTitle", "EqualFold":
+			return true
+		}
+		return false
+	}
+	n := 0
+	for _, f := range p.RepoFuncs() {
+		if f.Pkg == nil {
+			continue
+		}
+		rel := strings.TrimPrefix(f.Pkg.Pkg.Path(), engine.ModPath+"/")
+		if rel != "server" && rel != "server/proxy" && rel != "server/group" && rel != "server/visitor" {
+			continue
+		}
+		engine.ForEachInstr(f, func(in ssa.Instruction) {
+			switch x := in.(type) {
+			case *ssa.BinOp:
+				if x.Op != token.EQL && x.Op != token.NEQ {
+					return
+				}
+				var other ssa.Value
+				if _, ok := x.X.(*ssa.Const); ok {
+					other = x.Y
+				} else if _, ok := x.Y.(*ssa.Const); ok {
+					other = x.X
+				} else {
+					return
+				}
+				if b, ok := other.Type().Underlying().(*types.Basic); !ok || b.Info()&types.IsString == 0 {
+					return
+				}
+				src := engine.Provenance(other, engine.ProvOpts{})
+				cfg := false
+				var fnames []string
+				for fv := range src.Fields {
+					if isCfgField(fv) {
+						cfg = true
+						fnames = append(fnames, fv.Name())
+					}
+				}
+				if !cfg {
+					return
+				}
+				sort.Strings(fnames)
+				n++
+				var bad []string
+				for o := range src.Calls {
+					if folding(o) {
+						bad = append(bad, "strings."+o.Name())
+					}
+				}
+				sort.Strings(bad)
+				c.Check(len(bad) == 0, fmt.Sprintf("%s>raw-enum#%s", p.FuncName(f), strings.Join(fnames, "+")), in.Pos(), 1, bad,
+					"the configuration string is compared as received (the validator compared it exactly)")
+			case ssa.CallInstruction:
+				o := engine.CalleeObj(x)
+				if !folding(o) || o.Name() != "EqualFold" {
+					return
+				}
+				for _, a := range x.Common().Args {
+					src := engine.Provenance(a, engine.ProvOpts{})
+					for fv := range src.Fields {
+						if isCfgField(fv) {
+							n++
+							c.Violate(fmt.Sprintf("%s>raw-enum#EqualFold", p.FuncName(f)), in.Pos(), nil, "configuration field %s is matched case-insensitively; the validator matches it exactly", fv.Name())
+						}
+					}
+				}
+			}
+		})
+	}
+	c.Floor(n, 2)
 }
